@@ -74,7 +74,10 @@ def check_compare_loop(ctx, cfg, prog, f, loop, want_mod, what, key, sample_writ
     if ok:
         c = cmps[0]
         table = {v: cond_with_call_value(cond, c, v) for v in (-1, 0, 1)}
-        if not (table[-1] == 0 and table[0] == 1 and table[1] == 1):
+        if any(r is None for r in table.values()):
+            ok = False
+            why = 'the loop condition depends on more than the comparison (e.g. a retry counter): the loop can exit with an out-of-range sample'
+        elif not (table[-1] == 0 and table[0] == 1 and table[1] == 1):
             ok = False
             why = 'the loop continues for compare results %s (must continue exactly for 0 and 1, i.e. sample >= modulus)' % \
                   [v for v, r in table.items() if r]
